@@ -1,0 +1,12 @@
+//go:build verif
+
+package runtime
+
+// VerifSchedHook is called at the VM's scheduling points (verification builds only).
+var VerifSchedHook func(point string)
+
+func verifSchedPoint(point string) {
+	if hook := VerifSchedHook; hook != nil {
+		hook(point)
+	}
+}
